@@ -1,6 +1,6 @@
 // UNIT V-PARSE (C06, C05): dic/build/parse.rs -- the field parsers of the lexicon CSV:
 //   check_str_len, parse_i16, parse_u32, parse_wordid_raw, parse_wordid, parse_dic_form, parse_slash_list, parse_wordid_list,
-//   parse_u32_list, unescape, unescape_cow (as unescape: Cow::Borrowed / Owned carry the same text), unescape_slow
+//   parse_u32_list, unescape, unescape_cow (Cow<str> as a two-variant value with a text), unescape_slow
 // ASSUMED (wrappers below): u32::from_str / i16::from_str / u32::from_str_radix are total functions of the text (a value or an error),
 // str == / starts_with / split("/") / to_owned, char::from_u32, String::push; the regex crate as a model (captures_iter yields ordered,
 // non-overlapping matches of  \\u{H{1,6}} | \\uHHHH  on character boundaries, group 1 or 2 = the hexadecimal digits inside the match).
@@ -362,6 +362,30 @@ spec fn list_of<T, F: FnMut(&str) -> DicWriteResult<T>>(f: F, parts: Seq<Seq<cha
             r is Ok ==> data.spec_bytes().len() <= 32767 && sb(r->Ok_0).len() <= 32767,
             r is Ok <==> data.spec_bytes().len() <= 32767 && unescaped(data.spec_bytes()) is Some,
             r is Ok ==> sb(r->Ok_0) == unescaped(data.spec_bytes())->Some_0,
+//@end
+
+/// R14w: `Cow<str>` as a two-variant value with a text (std::borrow::Cow; ASSUMED: Borrowed / Owned carry the text they are made from)
+pub enum CowS<'a> { Borrowed(&'a str), Owned(String) }
+spec fn cow_bytes(c: CowS) -> Seq<u8> { match c { CowS::Borrowed(s) => s.spec_bytes(), CowS::Owned(s) => sb(s) } }
+//@extract sudachi/src/dic/build/parse.rs :: fn unescape_cow
+//@  rw R14w 1 custom
+//@  | DicWriteResult<Cow<str>>
+//@  > DicWriteResult<CowS<'_>>
+//@  rw R14 1 custom
+//@  | !UNICODE_LITERAL\.is_match\(data\)
+//@  > !unicode_literal_is_match(data)
+//@  rw R14w 1 custom
+//@  | Cow::Borrowed\(data\)
+//@  > CowS::Borrowed(data)
+//@  rw Rmap 1 custom
+//@  | unescape_slow\(data\)\.map\(\|s\| Cow::Owned\(s\)\)
+//@  > match unescape_slow(data) { Ok(s) => Ok(CowS::Owned(s)), Err(e) => Err(e) }
+//@  ret r
+//@  spec
+        ensures
+            // the borrowing variant of unescape: same acceptance, same text
+            r is Ok <==> data.spec_bytes().len() <= 32767 && unescaped(data.spec_bytes()) is Some,
+            r is Ok ==> cow_bytes(r->Ok_0) == unescaped(data.spec_bytes())->Some_0 && cow_bytes(r->Ok_0).len() <= 32767,
 //@end
 } // verus!
 fn main() {}
